@@ -111,7 +111,7 @@ SIMSRC2 = SIMSRC + ['sim/monitors.cc']
 
 PROPS['C01'] = dict(
     bin='c01', sources=['props/c01.cc'] + SIMSRC2, unit_objs=UNIT, images=IMGS, engine='rc',
-    quick=dict(workers=8, cases=400, budget=45, min_nontrivial=50),
+    quick=dict(workers=8, cases=2500, budget=40, min_nontrivial=50),
     thorough=dict(workers=16, cases=40000, budget=1200, min_nontrivial=5000),
     rule='case = (configuration: query type incl. autodetect, forced/auto downstream codec, forced/auto fragment size 2..1300, '
          '-M 100..255, lazy, raw mode, 1..3 real clients, tunnel domain, wildcard server domain, netmask, IPv4/IPv6 transport) + '
@@ -127,7 +127,7 @@ PROPS['C01'] = dict(
 )
 PROPS['C02'] = dict(
     bin='c02', sources=['props/c02.cc'] + SIMSRC2, unit_objs=UNIT, images=IMGS, engine='rc',
-    quick=dict(workers=8, cases=300, budget=45, min_nontrivial=40),
+    quick=dict(workers=8, cases=2000, budget=40, min_nontrivial=40),
     thorough=dict(workers=16, cases=30000, budget=1200, min_nontrivial=3000),
     rule='case = configuration as in C01 (one client; forced fragment sizes limited to what the answer format carries) + '
          'either (a) clean path, 1..40 offers with bursts and idle gaps up to 30 s: every accepted packet that fits 12 '
